@@ -74,7 +74,7 @@ def check_method(ctx, name, uniform):
             op = agg_field_operand(st, 'constraint')
             s = slice_op(ctx, body, op)
             item_locals = T.copies_of(body, lo[0].dst['l'])
-            ctx.check(lo[0].dst['l'] in s.locals and not s.has_call(r'Clone>::clone') , 'C09.wrap/%s/unchanged' % name, 'T-CARRY', body.name,
+            ctx.check(lo[0].dst['l'] in s.locals and not any(x.item == 'clone' for x in s.call_objs) , 'C09.wrap/%s/unchanged' % name, 'T-CARRY', body.name,
                       'RemovedConstraint.constraint is not the loop item itself', body.site(bi))
             # nothing writes into the loop item before it is wrapped
             item_ty = 'v1::Constraint'
